@@ -13,7 +13,7 @@ from tqdm import tqdm
 
 import neuroglancer_scripts.accessor
 import neuroglancer_scripts.chunk_encoding
-from neuroglancer_scripts import data_types, precomputed_io
+from neuroglancer_scripts import data_types, precomputed_io, sharded_base
 
 logger = logging.getLogger(__name__)
 
@@ -65,6 +65,12 @@ def convert_chunks(source_url, dest_url, copy_info=False,
     )
     chunk_reader = precomputed_io.get_IO_for_existing_dataset(source_accessor)
     source_info = chunk_reader.info
+    if copy_info and sharded_base.ShardedAccessorBase.info_is_sharded(
+            source_info):
+        # The copied info describes sharded scales, so the chunks must be
+        # written as shards (the destination has no info yet from which
+        # this could be detected)
+        options = dict(options, sharding=True)
     dest_accessor = neuroglancer_scripts.accessor.get_accessor_for_url(
         dest_url, options
     )
